@@ -138,15 +138,17 @@ def onLine (st : St) (n : Nat) (l : String) : IO St := do
   | ["end"] => return st.good "end"
   | "sub" :: name :: rest =>
     let (facts, impl) := rest.span (· != "=>")
+    let faulted := facts.contains "issuerfault=1"
+    let facts := facts.filter (· != "issuerfault=1")
     match parseReq st facts, impl with
     | some r, _ :: status :: grew :: more =>
-      let (s', resp) := handle st.cfg st.s r
+      let (s', resp) := if faulted then handleIssuerFault st.cfg st.s r else handle st.cfg st.s r
       let (stored, iss) := showStored resp.outcome
       let stored := if resp.status == 200 then stored else "none"
       let iss := if resp.status == 200 then iss else "-"
       let modelLine := s!"{resp.status} grew={s'.pool.length - st.s.pool.length} {stored} iss={iss}"
       let implLine := " ".intercalate (status :: grew :: more)
-      let b := branchOf st.cfg st.s.roots r resp
+      let b := (if faulted then "issuer-fault:" else "") ++ branchOf st.cfg st.s.roots r resp
       let st := { st with s := s' }
       if modelLine == implLine then return st.good b
       else st.bad n s!"{name} [{b}]: model={modelLine} impl={implLine}"
